@@ -3,4 +3,10 @@ package main
 // rareFixtures: signing inputs whose internal values sit on limb boundaries that random inputs reach with probability
 // about 2^-28.  Found once by cmd/rarehunt with the standard library only (crypto/ed25519, crypto/sha512, math/big);
 // replayed as ordinary sign events - the expected signature is NOT stored, TraceSign derives it.
-var rareFixtures = []struct{ kind, seed, msg string }{}
+var rareFixtures = []struct{ kind, seed, msg string }{
+	{"smallS", "25303b46515c67727d88939ea9b4bfcad5e0ebf6010c17222d38434e59646f7a", "602b2e02000000000000000003000000"},
+	{"shortNonce", "25303b46515c67727d88939ea9b4bfcad5e0ebf6010c17222d38434e59646f7a", "d2fc0f00000000000000000006000000"},
+	{"shortNonce", "25303b46515c67727d88939ea9b4bfcad5e0ebf6010c17222d38434e59646f7a", "ddb93800000000000000000000000000"},
+	{"shortNonce", "25303b46515c67727d88939ea9b4bfcad5e0ebf6010c17222d38434e59646f7a", "402be000000000000000000007000000"},
+	{"shortNonce", "25303b46515c67727d88939ea9b4bfcad5e0ebf6010c17222d38434e59646f7a", "b678f900000000000000000002000000"},
+}
